@@ -446,4 +446,195 @@ theorem edits_write_own_cells {h : Heap} {m : Nat} (hm : Born 0 h m) (es : List 
     simp only [List.foldl_cons]
     exact (ih m2 (by rw [r1]; exact h1) (by rw [r2]; exact h2)).trans (m4 a h1 h2)
 
+theorem copyCells_spec (k : List Rat → List Rat) : ∀ (cs : List Nat) (h : Heap), (∀ a ∈ cs, a < h.next) →
+    (copyCells k h cs).1.next = h.next + cs.length ∧
+    (copyCells k h cs).2 = List.range' h.next cs.length ∧
+    Same h.next h (copyCells k h cs).1 ∧
+    (∀ i, i < cs.length → (copyCells k h cs).1.cell (h.next + i) = .coeffs (k (coeffsAt h (cs.getD i 0)))) := by
+  intro cs
+  induction cs with
+  | nil => intro h _; exact ⟨rfl, rfl, Same.refl _ _, fun i hi => absurd hi (Nat.not_lt_zero i)⟩
+  | cons a t ih =>
+    intro h hlt
+    have hx : ∀ b ∈ t, b < (alloc h (.coeffs (k (coeffsAt h a)))).1.next := fun b hb => by
+      have := hlt b (List.mem_cons_of_mem _ hb); simp only [alloc_next]; omega
+    obtain ⟨i1, i2, i3, i4⟩ := ih (alloc h (.coeffs (k (coeffsAt h a)))).1 hx
+    simp only [alloc_next] at i1 i2 i3 i4
+    refine ⟨?_, ?_, ?_, ?_⟩
+    · show (copyCells k (alloc h _).1 t).1.next = _
+      rw [i1, List.length_cons]; omega
+    · show h.next :: (copyCells k (alloc h _).1 t).2 = _
+      rw [i2, List.length_cons, List.range'_succ]
+    · exact (same_alloc h _).trans (i3.mono (Nat.le_succ _))
+    · intro i hi
+      show (copyCells k (alloc h _).1 t).1.cell (h.next + i) = _
+      cases i with
+      | zero =>
+        rw [Nat.add_zero, i3 h.next (Nat.lt_succ_self _), alloc_cell_new]; rfl
+      | succ j =>
+        have hj : j < t.length := by simpa using hi
+        have := i4 j hj
+        rw [show h.next + (j + 1) = h.next + 1 + j by omega, this]
+        have hmem : t.getD j 0 ∈ t := by
+          simp only [List.getD_eq_getElem?_getD, List.getElem?_eq_getElem hj, Option.getD_some]; exact List.getElem_mem hj
+        have hlt' := hlt _ (List.mem_cons_of_mem _ hmem)
+        rw [coeffsAt_congr (alloc_cell_old h _ _ hlt')]
+        simp
+
+
+/-- a CQM object and the bounds of its cells -/
+def CWf (h : Heap) (d q v l o : Nat) (cs : List Nat) : Prop :=
+  h.cell d = .cycqm q v l ∧ h.cell q = .cqm o cs ∧ d < h.next ∧ q < h.next ∧ v < h.next ∧ l < h.next ∧ o < h.next ∧ ∀ c ∈ cs, c < h.next
+
+theorem cqmNew_cell (h : Heap) (a : Nat) : (cqmNew h).1.cell a =
+    if a = h.next + 4 then .cycqm (h.next + 1) (h.next + 3) (h.next + 2) else if a = h.next + 3 then .labels []
+    else if a = h.next + 2 then .labels [] else if a = h.next + 1 then .cqm h.next [] else if a = h.next then .coeffs [] else h.cell a := rfl
+
+theorem cqmRebuild_cells {h : Heap} {d q v l o : Nat} {cs : List Nat} (hd : CWf h d q v l o cs)
+    (ko kc : List Rat → List Rat) (gv gl : List Nat → List Nat) :
+    Same h.next h (cqmRebuild h d ko kc gv gl).1 ∧ (cqmRebuild h d ko kc gv gl).2 = h.next + 4 ∧
+    (cqmRebuild h d ko kc gv gl).1.cell (h.next + 4) = .cycqm (h.next + 1) (h.next + 7 + cs.length) (h.next + 6 + cs.length) ∧
+    (cqmRebuild h d ko kc gv gl).1.cell (h.next + 1) = .cqm (h.next + 5) (List.range' (h.next + 6) cs.length) ∧
+    (cqmRebuild h d ko kc gv gl).1.cell (h.next + 5) = .coeffs (ko (coeffsAt h o)) ∧
+    (∀ i, i < cs.length → (cqmRebuild h d ko kc gv gl).1.cell (h.next + 6 + i) = .coeffs (kc (coeffsAt h (cs.getD i 0)))) ∧
+    (cqmRebuild h d ko kc gv gl).1.cell (h.next + 6 + cs.length) = .labels (gl (labelsAt h l)) ∧
+    (cqmRebuild h d ko kc gv gl).1.cell (h.next + 7 + cs.length) = .labels (gv (labelsAt h v)) := by
+  obtain ⟨d1, d2, d3, d4, d5, d6, d7, d8⟩ := hd
+  -- stage A: the new (empty) CQM object
+  have hA : ∀ a, a < h.next → (cqmNew h).1.cell a = h.cell a := fun a ha => by
+    rw [cqmNew_cell, if_neg (by omega), if_neg (by omega), if_neg (by omega), if_neg (by omega), if_neg (by omega)]
+  have hAn : (cqmNew h).1.next = h.next + 5 := rfl
+  have hA2 : (cqmNew h).2 = h.next + 4 := rfl
+  have eA1 : cppOf (cqmNew h).1 d = q := by simp [cppOf, hA d d3, d1]
+  have eA2 : objectiveOf (cqmNew h).1 q = o := by simp [objectiveOf, hA q d4, d2]
+  have eA3 : coeffsAt (cqmNew h).1 o = coeffsAt h o := coeffsAt_congr (hA o d7)
+  simp only [cqmRebuild, hA2, eA1, eA2, eA3]
+  -- stage O: the new objective
+  generalize hOeq : alloc (cqmNew h).1 (.coeffs (ko (coeffsAt h o))) = O
+  have hOn : O.1.next = h.next + 6 := by rw [← hOeq]; rfl
+  have hO2 : O.2 = h.next + 5 := by rw [← hOeq]; rfl
+  have hOnew : O.1.cell (h.next + 5) = .coeffs (ko (coeffsAt h o)) := by rw [← hOeq]; exact alloc_cell_new _ _
+  have hOA : ∀ a, a < h.next + 5 → O.1.cell a = (cqmNew h).1.cell a := fun a ha => by rw [← hOeq]; exact alloc_cell_old _ _ _ (by omega)
+  have hO : ∀ a, a < h.next → O.1.cell a = h.cell a := fun a ha => (hOA a (by omega)).trans (hA a ha)
+  have eO1 : cppOf O.1 d = q := by simp [cppOf, hO d d3, d1]
+  have eO2 : constraintsOf O.1 q = cs := by simp [constraintsOf, hO q d4, d2]
+  simp only [eO1, eO2, hO2]
+  -- stage CS: the new constraints
+  obtain ⟨c1, c2, c3, c4⟩ := copyCells_spec kc cs O.1 (fun c hc => by have := d8 c hc; omega)
+  rw [hOn] at c1 c2 c3 c4
+  generalize copyCells kc O.1 cs = CS at *
+  have eC1 : cppOf CS.1 (h.next + 4) = h.next + 1 := by
+    have : CS.1.cell (h.next + 4) = .cycqm (h.next + 1) (h.next + 3) (h.next + 2) := by
+      rw [c3 _ (by omega), hOA _ (by omega), cqmNew_cell, if_pos rfl]
+    simp [cppOf, this]
+  simp only [eC1, c2]
+  -- stage H1: the vector is assigned
+  generalize hH1eq : store CS.1 (h.next + 1) (.cqm (h.next + 5) (List.range' (h.next + 6) cs.length)) = H1
+  have hH1cell : ∀ a, H1.cell a = if a = h.next + 1 then .cqm (h.next + 5) (List.range' (h.next + 6) cs.length) else CS.1.cell a := fun a => by
+    rw [← hH1eq]; exact store_cell _ _ _ _
+  have hH1n : H1.next = h.next + 6 + cs.length := by rw [← hH1eq]; exact c1
+  have hH1 : ∀ a, a < h.next → H1.cell a = h.cell a := fun a ha => by
+    rw [hH1cell, if_neg (by omega), c3 a (by omega)]; exact hO a ha
+  have eH1 : clabelsOf H1 d = l := by simp [clabelsOf, hH1 d d3, d1]
+  have eH2 : labelsAt H1 l = labelsAt h l := labelsAt_congr (hH1 l d6)
+  simp only [eH1, eH2]
+  -- stage L: the constraint labels
+  generalize hLeq : alloc H1 (.labels (gl (labelsAt h l))) = L
+  have hLcell : ∀ a, L.1.cell a = if a = h.next + 6 + cs.length then .labels (gl (labelsAt h l)) else H1.cell a := fun a => by
+    rw [← hLeq, alloc_cell, hH1n]
+  have hLn : L.1.next = h.next + 7 + cs.length := by rw [← hLeq]; show H1.next + 1 = _; omega
+  have hL2 : L.2 = h.next + 6 + cs.length := by rw [← hLeq]; exact hH1n
+  have hL : ∀ a, a < h.next → L.1.cell a = h.cell a := fun a ha => by rw [hLcell, if_neg (by omega)]; exact hH1 a ha
+  have eL1 : varsOf L.1 d = v := by simp [varsOf, hL d d3, d1]
+  have eL2 : labelsAt L.1 v = labelsAt h v := labelsAt_congr (hL v d5)
+  simp only [eL1, eL2, hL2]
+  -- stage V: the variables
+  generalize hVeq : alloc L.1 (.labels (gv (labelsAt h v))) = V
+  have hVcell : ∀ a, V.1.cell a = if a = h.next + 7 + cs.length then .labels (gv (labelsAt h v)) else L.1.cell a := fun a => by
+    rw [← hVeq, alloc_cell, hLn]
+  have hV2 : V.2 = h.next + 7 + cs.length := by rw [← hVeq]; exact hLn
+  have hCy : V.1.cell (h.next + 4) = .cycqm (h.next + 1) (h.next + 3) (h.next + 2) := by
+    rw [hVcell, if_neg (by omega), hLcell, if_neg (by omega), hH1cell, if_neg (by omega), c3 _ (by omega), hOA _ (by omega), cqmNew_cell, if_pos rfl]
+  have eV1 : cppOf V.1 (h.next + 4) = h.next + 1 := by simp [cppOf, hCy]
+  simp only [eV1, hV2]
+  -- the final heap, cell by cell
+  have hF : ∀ a, (store V.1 (h.next + 4) (.cycqm (h.next + 1) (h.next + 7 + cs.length) (h.next + 6 + cs.length))).cell a =
+      if a = h.next + 4 then .cycqm (h.next + 1) (h.next + 7 + cs.length) (h.next + 6 + cs.length)
+      else if a = h.next + 7 + cs.length then .labels (gv (labelsAt h v))
+      else if a = h.next + 6 + cs.length then .labels (gl (labelsAt h l))
+      else if a = h.next + 1 then .cqm (h.next + 5) (List.range' (h.next + 6) cs.length) else CS.1.cell a := fun a => by
+    rw [store_cell, hVcell, hLcell, hH1cell]
+  refine ⟨fun a ha => ?_, trivial, ?_, ?_, ?_, fun i hi => ?_, ?_, ?_⟩
+  · rw [hF, if_neg (by omega), if_neg (by omega), if_neg (by omega), if_neg (by omega), c3 a (by omega)]; exact hO a ha
+  · rw [hF, if_pos rfl]
+  · rw [hF, if_neg (by omega), if_neg (by omega), if_neg (by omega), if_pos rfl]
+  · rw [hF, if_neg (by omega), if_neg (by omega), if_neg (by omega), if_neg (by omega), c3 _ (by omega)]; exact hOnew
+  · rw [hF, if_neg (by omega), if_neg (by omega), if_neg (by omega), if_neg (by omega), c4 i hi]
+    have hmem : cs.getD i 0 ∈ cs := by
+      simp only [List.getD_eq_getElem?_getD, List.getElem?_eq_getElem hi, Option.getD_some]; exact List.getElem_mem hi
+    rw [coeffsAt_congr (hO _ (d8 _ hmem))]
+  · rw [hF, if_neg (by omega), if_neg (by omega), if_pos rfl]
+  · rw [hF, if_neg (by omega), if_pos rfl]
+
+
+/-- the cells of a CQM object -/
+def cfp (h : Heap) (d : Nat) : List Nat :=
+  d :: cppOf h d :: varsOf h d :: clabelsOf h d :: objectiveOf h (cppOf h d) :: constraintsOf h (cppOf h d)
+
+/-- a CQM built from another (`copy.deepcopy`, `fix_variables(inplace=False)`): no existing cell is written, every cell of the result —
+    the cy object, the C++ CQM, the objective, EVERY constraint, both `Variables` — was allocated by the call, the result holds the
+    transformed contents constraint by constraint, and the receiver reads as before -/
+theorem cqmRebuild_spec {h : Heap} {d q v l o : Nat} {cs : List Nat} (hd : CWf h d q v l o cs)
+    (ko kc : List Rat → List Rat) (gv gl : List Nat → List Nat) :
+    Same h.next h (cqmRebuild h d ko kc gv gl).1 ∧
+    (∀ a ∈ cfp (cqmRebuild h d ko kc gv gl).1 (cqmRebuild h d ko kc gv gl).2, h.next ≤ a) ∧
+    cobs (cqmRebuild h d ko kc gv gl).1 (cqmRebuild h d ko kc gv gl).2 =
+      (ko (coeffsAt h o), cs.map (fun c => kc (coeffsAt h c)), gv (labelsAt h v), gl (labelsAt h l)) ∧
+    cobs (cqmRebuild h d ko kc gv gl).1 d = cobs h d := by
+  obtain ⟨s1, s2, s3, s4, s5, s6, s7, s8⟩ := cqmRebuild_cells hd ko kc gv gl
+  obtain ⟨d1, d2, d3, d4, d5, d6, d7, d8⟩ := hd
+  generalize cqmRebuild h d ko kc gv gl = r at *
+  rw [s2]
+  have e1 : cppOf r.1 (h.next + 4) = h.next + 1 := by simp [cppOf, s3]
+  have e2 : varsOf r.1 (h.next + 4) = h.next + 7 + cs.length := by simp [varsOf, s3]
+  have e3 : clabelsOf r.1 (h.next + 4) = h.next + 6 + cs.length := by simp [clabelsOf, s3]
+  have e4 : objectiveOf r.1 (h.next + 1) = h.next + 5 := by simp [objectiveOf, s4]
+  have e5 : constraintsOf r.1 (h.next + 1) = List.range' (h.next + 6) cs.length := by simp [constraintsOf, s4]
+  refine ⟨s1, ?_, ?_, ?_⟩
+  · intro a ha
+    simp only [cfp, e1, e2, e3, e4, e5, List.mem_cons, List.mem_range'_1] at ha
+    omega
+  · simp only [cobs, e1, e2, e3, e4, e5]
+    have m1 : coeffsAt r.1 (h.next + 5) = ko (coeffsAt h o) := by simp [coeffsAt, s5]
+    have m2 : labelsAt r.1 (h.next + 7 + cs.length) = gv (labelsAt h v) := by simp [labelsAt, s8]
+    have m3 : labelsAt r.1 (h.next + 6 + cs.length) = gl (labelsAt h l) := by simp [labelsAt, s7]
+    rw [m1, m2, m3]
+    congr 2
+    apply List.ext_getElem
+    · simp
+    · intro i h1 h2
+      have hi : i < cs.length := by simpa using h2
+      simp only [List.getElem_map, List.getElem_range', Nat.one_mul]
+      have := s6 i hi
+      simp only [coeffsAt, this]
+      simp [List.getD_eq_getElem?_getD, List.getElem?_eq_getElem hi]
+  · have c0 : r.1.cell d = h.cell d := s1 d d3
+    have cq : r.1.cell q = h.cell q := s1 q d4
+    have eq1 : cppOf r.1 d = q := by simp [cppOf, c0, d1]
+    have eq2 : cppOf h d = q := by simp [cppOf, d1]
+    have eq3 : varsOf r.1 d = v := by simp [varsOf, c0, d1]
+    have eq4 : varsOf h d = v := by simp [varsOf, d1]
+    have eq5 : clabelsOf r.1 d = l := by simp [clabelsOf, c0, d1]
+    have eq6 : clabelsOf h d = l := by simp [clabelsOf, d1]
+    have eq7 : objectiveOf r.1 q = o := by simp [objectiveOf, cq, d2]
+    have eq8 : objectiveOf h q = o := by simp [objectiveOf, d2]
+    have eq9 : constraintsOf r.1 q = cs := by simp [constraintsOf, cq, d2]
+    have eq10 : constraintsOf h q = cs := by simp [constraintsOf, d2]
+    simp only [cobs, eq1, eq2, eq3, eq4, eq5, eq6, eq7, eq8, eq9, eq10, coeffsAt_congr (s1 o d7), labelsAt_congr (s1 v d5), labelsAt_congr (s1 l d6)]
+    congr 2
+    apply List.map_congr_left
+    intro c hc
+    exact coeffsAt_congr (s1 c (d8 c hc))
+
+
 end MHeap
